@@ -37,7 +37,7 @@ pub fn has_structure(d: &MDesc) -> bool {
 impl Check for C01 {
     fn id(&self) -> &'static str { "C01" }
     fn rule(&self) -> String {
-        "case = (descriptor of a random output type built from a typed random miniscript, world = subset of its keys / preimages + nLockTime/nSequence around its locks, entry point in {get_satisfaction, get_satisfaction_mall, satisfy(txin), into_plan+Plan::satisfy, into_plan_mall+Plan::satisfy}); real signatures over the real transaction; oracle = independent reference script interpreter with standardness flags. Non-trivial = the library returned a satisfaction AND the script has >= 2 leaves or a lock/hash/threshold/multisig; distinct by (descriptor text, world, entry).".into()
+        "case = (descriptor of a random output type built from a typed random miniscript, world = subset of its keys / preimages + nLockTime/nSequence around its locks, entry point in {get_satisfaction, get_satisfaction_mall, satisfy(txin), into_plan+Plan::satisfy, into_plan_mall+Plan::satisfy, get_satisfaction(_mall) with a PsbtInputSatisfier over a PSBT input that holds the same signatures and preimages}); real signatures over the real transaction; oracle = independent reference script interpreter with standardness flags. Non-trivial = the library returned a satisfaction AND the script has >= 2 leaves or a lock/hash/threshold/multisig; distinct by (descriptor text, world, entry).".into()
     }
     fn assumptions(&self) -> Vec<String> {
         vec![
@@ -82,8 +82,8 @@ impl Check for C01 {
         let world = gen::gen_world(src, &d);
         let n_inputs = src.range(1, 3);
         let idx = src.below(n_inputs);
-        let entry = src.below(5);
-        let entry_name = ["get_satisfaction", "get_satisfaction_mall", "satisfy_txin", "plan", "plan_mall"][entry];
+        let entry = src.below(7);
+        let entry_name = ["get_satisfaction", "get_satisfaction_mall", "satisfy_txin", "plan", "plan_mall", "psbt_satisfier", "psbt_satisfier_mall"][entry];
         rep.desc = format!("{} | {} | entry={} input {}/{}", text, world.describe(), entry_name, idx, n_inputs);
         let scripts = match d.scripts() {
             Ok(s) => s,
@@ -109,6 +109,38 @@ impl Check for C01 {
                 match lib.satisfy(&mut txin, &sat) {
                     Ok(()) => Ok((txin.witness.iter().map(|e| e.to_vec()).collect(), txin.script_sig.clone())),
                     Err(e) => Err(e.to_string()),
+                }
+            }
+            5 | 6 => {
+                // the same signatures and preimages held by a PSBT input, the PSBT as satisfier
+                use bitcoin::hashes::{hash160, ripemd160, sha256, sha256d, Hash};
+                let mut psbt = match bitcoin::Psbt::from_unsigned_tx(t.tx.clone()) {
+                    Ok(p) => p,
+                    Err(e) => return fail("psbt-from-tx", e.to_string()),
+                };
+                psbt.inputs[idx].witness_utxo = Some(t.prevouts[idx].clone());
+                for (kb, sig) in sat.ecdsa.iter() {
+                    if let Ok(pk) = bitcoin::PublicKey::from_slice(kb) {
+                        psbt.inputs[idx].partial_sigs.insert(pk, *sig);
+                    }
+                }
+                psbt.inputs[idx].tap_key_sig = sat.tap_key;
+                for ((x, lh), sig) in sat.tap_leaf.iter() {
+                    if let Ok(xo) = bitcoin::key::XOnlyPublicKey::from_slice(x) {
+                        psbt.inputs[idx].tap_script_sigs.insert((xo, bitcoin::taproot::TapLeafHash::from_byte_array(*lh)), *sig);
+                    }
+                }
+                for pre in sat.preimages.values() {
+                    psbt.inputs[idx].sha256_preimages.insert(sha256::Hash::hash(pre), pre.to_vec());
+                    psbt.inputs[idx].hash256_preimages.insert(sha256d::Hash::hash(pre), pre.to_vec());
+                    psbt.inputs[idx].ripemd160_preimages.insert(ripemd160::Hash::hash(pre), pre.to_vec());
+                    psbt.inputs[idx].hash160_preimages.insert(hash160::Hash::hash(pre), pre.to_vec());
+                }
+                let ps = miniscript::psbt::PsbtInputSatisfier::new(&psbt, idx);
+                if entry == 5 {
+                    lib.get_satisfaction(&ps).map_err(|e| e.to_string())
+                } else {
+                    lib.get_satisfaction_mall(&ps).map_err(|e| e.to_string())
                 }
             }
             3 | _ => {
